@@ -44,6 +44,7 @@ NewEd(regnames, marknames) ==
      out   |-> <<>>,        \* what the last prompt line printed: lines with their NL, "=" answers
      inp   |-> <<>>,        \* input consumed after the command line (text blocks), in order
      gdep  |-> 0,           \* global nesting depth
+     typed |-> {},          \* inside a global: the log entries (indices of lb.hist) that hold the text typed for a `c'
      code  |-> FALSE,       \* TRUE: evaluate the operational transcriptions where they differ from the reference
      ret   |-> 0]
 
@@ -240,24 +241,24 @@ SubLoop(ed, cp, i, end, rep, all) ==
 
 (* global: the scan of ec_glob over mark bits; `ids' is the set of line positions still marked, kept as
    positions that move with the lines (see GlobShift) *)
-GlobShift(marked, pos, ndel, nins) ==      \* how lbuf_replace moves ln_glob[]
+GlobShift(marked, pos, ndel, nins, fresh) ==      \* how lbuf_replace moves ln_glob[]; fresh: the new lines are typed text
     {q \in {IF p < pos THEN p
             ELSE IF p >= pos + ndel THEN p + nins - ndel
-            ELSE IF p < pos + nins THEN p          \* a replaced line keeps its bit
+            ELSE IF p < pos + nins /\ ~fresh THEN p          \* a replaced (edited) line keeps its bit
             ELSE -1 : p \in marked} : q >= 0}
 (* the marked set is threaded through the edits of one execution by re-deriving it from the
    log entries the execution appended *)
-RECURSIVE ApplyLog(_, _, _, _)
-ApplyLog(marked, hist, from, to) ==
+RECURSIVE ApplyLog(_, _, _, _, _)
+ApplyLog(marked, hist, from, to, typed) ==
     IF from > to THEN marked
-    ELSE ApplyLog(GlobShift(marked, hist[from].pos, Len(hist[from].del), Len(hist[from].ins)), hist, from + 1, to)
+    ELSE ApplyLog(GlobShift(marked, hist[from].pos, Len(hist[from].del), Len(hist[from].ins), from \in typed), hist, from + 1, to, typed)
 GlobLoop(ed, cp, neg, cmds, i, marked) ==
     IF i >= NLines(ed) THEN ed
     ELSE LET hit == LineMatches(cp, Lines(ed)[i + 1], ed.ic) # neg
              ed1 == IF hit THEN ExRun([ed EXCEPT !.row = i], cmds) ELSE ed     \* the line is current during the execution
              stop == hit /\ ed1.ret # 0
              (* the edits made by this execution moved the mark bits with the lines *)
-             mk1 == IF hit THEN ApplyLog(marked, ed1.lb.hist, ed.lb.hu + 1, ed1.lb.hu) ELSE marked
+             mk1 == IF hit THEN ApplyLog(marked, ed1.lb.hist, ed.lb.hu + 1, ed1.lb.hu, ed1.typed) ELSE marked
              (* the next line visited is the lowest line still marked, wherever the execution has moved it (C15: "each line of
                 the original range that still exists exactly once, in increasing order"); the marked lines keep their
                 order, so this is the successor in the original range.  An earlier version transcribed the scan of
@@ -279,7 +280,10 @@ ExStep(ed0, c) ==
            ELSE LET beg == IF k = "a" /\ r.beg < r.end THEN r.beg + 1 ELSE r.beg      \* address 0: before line 1
                     end == IF k = "c" THEN r.end ELSE beg
                     ed1 == EdEdit(ed, c.txt, TRUE, beg, end)
-                IN Ok([ed1 EXCEPT !.row = ClampRow(Min2(end, n) + NLines(ed1) - n - 1, NLines(ed1))])
+                    (* the text typed for a `c' is new: no running global visits it (C15), although lbuf_replace hands the
+                       bits of the replaced lines on to it *)
+                    ty  == IF k = "c" /\ ed.gdep > 0 /\ ed1.lb.hu > ed.lb.hu THEN ed1.typed \cup {ed1.lb.hu} ELSE ed1.typed
+                IN Ok([ed1 EXCEPT !.row = ClampRow(Min2(end, n) + NLines(ed1) - n - 1, NLines(ed1)), !.typed = ty])
       [] k = "d" ->
            LET r == Region(ed0, c.loc)  ed == r.ed IN
            IF ~r.ok \/ NLines(ed) = 0 THEN Fail(ed)
@@ -339,7 +343,7 @@ ExStep(ed0, c) ==
                    ELSE IF r.beg < 0 \/ r.beg >= r.end THEN Ok(ed1)
                    ELSE LET g == GlobLoop([ed1 EXCEPT !.gdep = ed1.gdep + 1], cp, k = "v", c.cmds, r.beg,
                                           (r.beg + 1)..(r.end - 1))
-                        IN Ok([g EXCEPT !.gdep = ed1.gdep])
+                        IN Ok([g EXCEPT !.gdep = ed1.gdep, !.typed = IF ed1.gdep = 0 THEN {} ELSE g.typed])
       [] k = "u" ->
            LET lb == Lb!Undo(ed0.lb) IN
            [ed0 EXCEPT !.lb = lb, !.ret = lb.ret,
